@@ -19,7 +19,7 @@ RULE = ("random binary datasets n in 10..40, 2..3 groups, one feature with 2..5 
         "learner = ExactLearner (exact weighted 0/1 minimiser over all labellings of the feature cells, or over 1-D thresholds in "
         "both directions + constants; in a fifth of the cases wrapped in a scikit-learn Pipeline with sample_weight_name='clf__sample_weight') "
         "so the hypothesis class H is enumerable; 5 parity moments x 9 bound specs; eps in "
-        "{0.01..0.25} (in a quarter of the cases the estimator was fitted on other data of the same size before), max_iter in {1,3,6,10,25,50}, nu in {1e-6..0.05}, eta0 in {0.5,2,8}, LP step on/off. Oracle: err/gamma "
+        "{0.01..0.25} (in a quarter of the cases the estimator was fitted on other data of the same size before), max_iter in {1,3,6,10,25,50}, nu in {1e-6..0.05}, eta0 in {0.5,2,8}, LP step on/off; a quarter of the fits use objective=ErrorRate(costs) with costs in [0,1] incl. a zero cost. Oracle: (cost-weighted) err/gamma "
         "tables over H from refs/moments.py; Q = weights_ over predictors_[t].predict(X); true duality gap of (Q, lambda-hat) for "
         "lambda-hat in {mean of lambda_vecs_EG_[:, :best_iter_+1], lambda_vecs_LP_[best_iter_]} (minimum over the candidates) "
         "must be <= best_gap_; independent LP (HiGHS) for the constrained optimum: err(Q) <= OPT + 2g and every constraint "
@@ -31,7 +31,7 @@ ASSUMPTIONS = ["base learner exact over H (the ExactLearner of the harness); H c
 
 
 def cases(tier, seed):
-    return [("fit", i) for i in range(150 if tier == "quick" else 4500)]
+    return [("fit", i) for i in range(400 if tier == "quick" else 6000)]
 
 
 def run_case(cls, key, seed, ctx):
@@ -49,14 +49,18 @@ def run_case(cls, key, seed, ctx):
     eta0 = float(gen.pick(rng, [0.5, 2.0, 8.0]))
     lp = bool(rng.random() < 0.6)
     composite = bool(rng.random() < 0.2)
+    # a quarter of the fits use a cost-sensitive error objective with costs in [0,1] (so the objective stays in [0,1], as the
+    # (1+2g)/B bound assumes); "error" below is then that cost-weighted error.  A zero cost gives rows with exactly zero weight.
+    fp, fn = (1.0, 1.0) if rng.random() < 0.75 else [(0.0, 1.0), (1.0, 0.0), (0.3, 1.0), (1.0, 0.5), (0.0, 0.7)][int(rng.integers(0, 5))]
+    okw = {} if (fp, fn) == (1.0, 1.0) else {"objective": red.ErrorRate(costs={"fp": fp, "fn": fn})}
     if composite:
         from sklearn.pipeline import Pipeline
         from sklearn.preprocessing import FunctionTransformer
 
         eg = red.ExponentiatedGradient(Pipeline([("noop", FunctionTransformer()), ("clf", ExactLearner(hclass=hclass))]), moment, eps=eps, max_iter=max_iter,
-                                       nu=nu, eta0=eta0, run_linprog_step=lp, sample_weight_name="clf__sample_weight")
+                                       nu=nu, eta0=eta0, run_linprog_step=lp, sample_weight_name="clf__sample_weight", **okw)
     else:
-        eg = red.ExponentiatedGradient(ExactLearner(hclass=hclass), moment, eps=eps, max_iter=max_iter, nu=nu, eta0=eta0, run_linprog_step=lp)
+        eg = red.ExponentiatedGradient(ExactLearner(hclass=hclass), moment, eps=eps, max_iter=max_iter, nu=nu, eta0=eta0, run_linprog_step=lp, **okw)
     X, y, g, c = ML.wrap_inputs(rng, ds)
     kw = {"sensitive_features": g}
     if c is not None:
@@ -73,7 +77,7 @@ def run_case(cls, key, seed, ctx):
     eg.fit(X, y, **kw)
     B = 1.0 / eps
     wit = {"moment": kind, "bound": list(bound), "y": ds.y, "groups": ds.g, "control": ds.c, "x": ds.X[:, 0].tolist(), "hclass": hclass,
-           "eps": eps, "max_iter": max_iter, "nu": nu, "eta0": eta0, "lp": lp, "pipeline_estimator": composite, "fitted_on_other_data_before": refit, "best_gap_": float(eg.best_gap_), "best_iter_": int(eg.best_iter_),
+           "eps": eps, "max_iter": max_iter, "nu": nu, "eta0": eta0, "lp": lp, "pipeline_estimator": composite, "fitted_on_other_data_before": refit, "objective_costs": {"fp": fp, "fn": fn}, "best_gap_": float(eg.best_gap_), "best_iter_": int(eg.best_iter_),
            "last_iter_": int(eg.last_iter_)}
     ctx.ev("fits_checked")
     mom = eg.constraints
@@ -81,7 +85,7 @@ def run_case(cls, key, seed, ctx):
     if problems:
         ctx.violate("index_does_not_match_definition:" + problems[0][0], detail=problems[0][1], wit=wit)
         return
-    tab = RS.Table(kind, ds, ratio, cbound, ExactLearner.hypotheses(ds.X[:, 0], hclass))
+    tab = RS.Table(kind, ds, ratio, cbound, ExactLearner.hypotheses(ds.X[:, 0], hclass), fp, fn)
     w = eg.weights_
     wv = np.asarray(w, float)
     ctx.check(bool((wv >= -1e-12).all()) and abs(float(wv.sum()) - 1.0) <= 1e-9, "weights_not_a_probability_vector", weights=wv.tolist(), wit=wit)
